@@ -52,7 +52,9 @@ def repo_tree_hash(repo=None):
 
 
 def ensure_driver():
-    if not os.path.exists(DRIVER):
+    srcs = [os.path.join(VERIF, 'driver', 'src', 'main.rs'), os.path.join(VERIF, 'driver', 'Cargo.toml')]
+    stale = not os.path.exists(DRIVER) or any(os.path.getmtime(x) > os.path.getmtime(DRIVER) for x in srcs if os.path.exists(x))
+    if stale:
         r = subprocess.run(['cargo', 'build', '--offline'], cwd=os.path.join(VERIF, 'driver'),
                            stdout=subprocess.PIPE, stderr=subprocess.STDOUT, text=True)
         if r.returncode != 0 or not os.path.exists(DRIVER):
